@@ -560,6 +560,25 @@ func driveC06(p *Pool, r *evid.Run) {
 	}
 	exploreAll(p, r, "C06", v2, 1, 0)
 	r.Add("scenarios", int64(len(v2)))
+	// V3: 36 sizes just below one and two chunks, all requested (bound 0); V1 plus a fifo and a device: their ids
+	// are not requestable
+	var vs3 []Scn
+	{
+		all := make([]int, len(Tree("v3")))
+		for i := range all {
+			all[i] = i
+		}
+		for _, pol := range []string{"run", "recv"} {
+			vs3 = append(vs3, Scn{Kind: "refrecv", Src: "v3", Cap: 64, Policy: pol, Script: all}, Scn{Kind: "refrecv", Src: "v3", Cap: 2, Policy: pol, Script: all, DiskSrc: true})
+		}
+		for _, bad := range [][]int{{5}, {6}, {0, 5}, {6, 2}} {
+			for _, pol := range []string{"run", "recv"} {
+				vs3 = append(vs3, Scn{Kind: "refrecv", Src: "v1spec", Cap: 2, Policy: pol, Script: bad, SelectAlts: true})
+			}
+		}
+	}
+	exploreAll(p, r, "C06", vs3, 0, 0)
+	r.Add("scenarios", int64(len(vs3)))
 
 	// V1 plus a socket and a root entry named like the listing file: ids 0 .fsutil-metadata, 1 a, 3 b/c, 4 b/sock, 7 z
 	var odd []Scn
